@@ -74,22 +74,45 @@ func init() {
 		},
 	}
 	register(&Property{
-		ID:        "C22",
-		Patterns:  []string{"./sql/rowexec"},
-		Technique: "definitional-member coverage: struct fields / interface methods (go/types) versus the selections made on the SHOW CREATE TABLE path (root function, its direct callees, the schema formatter's methods and their direct callees)",
+		ID:       "C22",
+		Patterns: []string{"./sql/rowexec", "./sql/analyzer"},
+		Technique: "definitional-member coverage: struct fields / interface methods (go/types) versus the selections made on the SHOW CREATE TABLE path (root function, its direct callees, the schema formatter's methods and their direct callees); " +
+			"object identity over go/ssa for the planner hand-over: alias closure of a locally created plan node, instruction-level reachability of its uses, interprocedural copy/retain/return summaries of callees " +
+			"(interface calls entered with the caller's concrete type, else every implementation), who-writes versus who-reads per field of plan.ShowCreateTable",
 		Explanation: "SHOW CREATE TABLE text is produced by showCreateTablesIter.produceCreateTableStatement together with the MySqlSchemaFormatter methods. An attribute of a column, index, foreign key or check " +
-			"that this code never reads cannot appear in the printed statement, so re-running the statement cannot recreate it. Decided: every member of the frozen definitional tables of sql.Column (11 fields), " +
+			"that this code never reads cannot appear in the printed statement, so re-running the statement cannot recreate it. Decided (F1): every member of the frozen definitional tables of sql.Column (11 fields), " +
 			"sql.Index (8 methods), sql.ForeignKeyConstraint (7 fields) and sql.CheckConstraint (3 fields) is read somewhere on that path. Members in the frozen non-definitional table (with a reason each) are exempt; " +
-			"a member in neither table is listed as unclassified information (it may be a cache) and does not fail the check.",
+			"a member in neither table is listed as unclassified information (it may be a cache) and does not fail the check. " +
+			"Decided for the planner side (the statement is printed from what the planner hands to the executor, and the printed CREATE TABLE is planned by the same package): " +
+			"(L1) in sql/planbuilder and sql/analyzer, a field store on a sql/plan struct that the storing function created itself (literal, constructor or With*-style copy, decided from the callee bodies) is observable: " +
+			"after the store the object is read, passed on, returned, or it was already shared before; a store made after the node was handed to a copying call (e.g. modifySchemaTarget -> value-receiver WithTargetSchema) " +
+			"with no later use of the original is a lost update and is reported with the copying call; " +
+			"(L3) the copy returned by a With*-style method (fresh copy of its receiver with fields updated, receiver untouched, copy not registered anywhere — all implementations when the call is dynamic) is used by the caller; " +
+			"(L2) every field of plan.ShowCreateTable that sql/rowexec reads (directly, through the node's accessors, or through a promoted member) has at least one live provider in the loaded engine packages: " +
+			"a constructor literal, a field store that is not lost by L1, or a method of the node that stores the field and is called (for copying methods: with the result used, L3).",
 		NotCovered: "that a member that is read is also printed correctly, that the printed text parses back to an identical object, table options beyond what the root function prints, " +
-			"SHOW CREATE VIEW/TRIGGER/PROCEDURE/EVENT (stored and returned as text)",
-		Run: func(c *Ctx) { runC22(c, real, 29) },
+			"SHOW CREATE VIEW/TRIGGER/PROCEDURE/EVENT (stored and returned as text); " +
+			"L1/L3: objects the function does not own (parameters, values loaded from memory, values merged at a join point), nodes captured by closures, values written correctly but wrong, " +
+			"copies that are used but are the wrong version (a stale original passed on instead of the copy); L2 is a may-analysis (one live provider anywhere suffices; not that every planner path provides the field, " +
+			"not that the provided value is right) and sees only providers inside the loaded packages (quick tier: closure of sql/rowexec and sql/analyzer; thorough tier: the whole engine)",
+		Run: func(c *Ctx) {
+			runC22(c, real, 29)
+			runC22Lost(c, c22RealLostNames(c))
+			dumpObsIfAsked(c)
+		},
 		Fixture: func(c *Ctx, fx2 *Prog) {
 			expectFixture(c, fx2, "c22: a definitional field and a definitional index method that the path never reads must be reported",
 				[]string{"C22-F1:Column.Invisible", "C22-F1:Index.Comment"},
 				func(fc *Ctx) { runC22(fc, fx, 0) })
+			expectFixture(c, fx2, "c22-lost: a store on the stale original after the copying call, a dropped With* copy, and executor-read fields without a live provider must be reported; "+
+				"stores before the copy, stores on a node that is already shared, and used copies must stay silent",
+				[]string{"C22-L1:Builder.buildStale/Show.Order", "C22-L2:Show.Hint", "C22-L2:Show.Order", "C22-L3:Builder.buildDropped/KeyTarget.WithKey"},
+				func(fc *Ctx) {
+					runC22Lost(fc, c22LostNames{nodeRel: "testdata/c22/lost/plan", scanRels: []string{"testdata/c22/lost/builder"},
+						execRel: "testdata/c22/lost/exec", nodeType: "Show"})
+				})
 		},
-		FixturePkgs: []string{"./testdata/c22/exec", "./testdata/c22/sql"},
+		FixturePkgs: []string{"./testdata/c22/exec", "./testdata/c22/sql", "./testdata/c22/lost/plan", "./testdata/c22/lost/builder", "./testdata/c22/lost/exec"},
 	})
 }
 
@@ -287,5 +310,4 @@ func runC22(c *Ctx, nm c22Names, floor int) {
 			c.Note("C22-F1", "unclassified/"+tg.typeName+"."+m, members[m], fmt.Sprintf("member is in neither table (read on the path: %v); classify it when it becomes part of a definition", read))
 		}
 	}
-	dumpObsIfAsked(c)
 }
